@@ -53,8 +53,25 @@ class ExprInModel(ExprModel):
                     # TODO: must handle case where size is random
                     arr : FieldArrayModel = r.fm
                     
-                    if arr.is_rand_sz:
-                        pass
+                    if arr.is_rand_sz and arr.size.is_used_rand:
+                        # The size is being solved for. An element is in
+                        # the list only if its index is below the size
+                        for i in range(len(arr.field_l)):
+                            t = ExprBinModel(
+                                ExprBinModel(
+                                    ExprLiteralModel(i, False, 32),
+                                    BinExprType.Lt,
+                                    ExprFieldRefModel(arr.size)),
+                                BinExprType.And,
+                                ExprBinModel(
+                                    self.lhs, 
+                                    BinExprType.Eq, 
+                                    ExprFieldRefModel(arr.field_l[i])))
+                            if expr is None:
+                                expr = t
+                            else:
+                                expr = ExprBinModel(expr, BinExprType.Or, t)
+                        t = None
                     else:
                         for i in range(int(arr.size.get_val())):
                             t = ExprBinModel(
